@@ -692,7 +692,16 @@ func (g *tsgen) moduleStmt(d int) dp {
 		// an import that is only used in type positions is dropped (documented elision)
 		g.cnt("import-used-as-type-only")
 		t, v := g.fresh("IT"), g.fresh("iv")
-		return dcat("import { ", tsOnly(t+", "), v, " } from ", m, ";\n", "let ", g.fresh("w"), tsOnly(": "+t+"<"+t+"[]>"), " = ", v, ";\n")
+		use := dcat("let ", g.fresh("w"), tsOnly(": "+t+"<"+t+"[]>"), " = ", v, ";\n")
+		switch r.Intn(3) {
+		case 0:
+			return dcat("import { ", tsOnly(t+", "), v, " } from ", m, ";\n", use)
+		case 1:
+			return dcat("import { ", v, tsOnly(", "+t), " } from ", m, ";\n", use)
+		default:
+			v2 := g.fresh("iv")
+			return dcat("import ", v, ", { ", tsOnly(t+", "), v2, tsOnly(", "+t+" as "+g.fresh("IT")), " } from ", m, ";\n", use, v2, "();\n")
+		}
 	case 5:
 		g.cnt("export-type-clause")
 		t := g.fresh("ET")
@@ -867,6 +876,14 @@ func evalTypedCase(st *Stats, c gcase, sample bool) {
 		// re-run (determinism) before reporting
 		_, again := transformText(c.p.ts, c.mk(c.tsLoader))
 		if again != "" {
+			if strings.Contains(tsErr, "Transforming non-identifier array rest patterns") {
+				// known finding J: the speculative arrow-parameter parse after "?" logs a lowering error
+				if _, e := transformText(c.p.js, c.mk(c.tsLoader)); e != "" {
+					input["scenario"] = "known-J"
+					st.Fail("known-J-parenthesised-spread-after-question-rejected-by-ts-loader", input, tsErr, "accepted like under the js loader")
+					return
+				}
+			}
 			st.Fail("typed-program-rejected", input, tsErr, "accepted like its untyped counterpart")
 		}
 		return
